@@ -173,6 +173,20 @@ func randomCommands(r interface {
 		}
 		if r.Intn(6) == 0 && len(out) > 0 {
 			c = out[r.Intn(len(out))] // duplicate entry
+		} else if r.Intn(5) == 0 && len(out) > 0 {
+			// a near-duplicate: an earlier entry with exactly one field changed (what a cache keyed on "the text" of an
+			// entry must not confuse)
+			c = out[r.Intn(len(out))]
+			switch r.Intn(4) {
+			case 0:
+				c.Tags = []string{pick(1), pick(1)}
+			case 1:
+				c.Keywords = []string{pick(1)}
+			case 2:
+				c.Description = pick(2)
+			default:
+				c.Command = pick(2)
+			}
 		}
 		out = append(out, c)
 	}
